@@ -259,10 +259,46 @@ class Rat:
     def as_poly(self):
         if self.d.is_const():
             return self.n / self.d
-        raise ValueError("not polynomial: %r" % self)
+        q = exact_div(self.n, self.d)
+        if q is None:
+            raise ValueError("not polynomial: %r" % self)
+        return q
 
     def __repr__(self):
         return "(%r)/(%r)" % (self.n, self.d)
+
+
+def _lead(p):
+    """leading term (monomial key, coefficient) in a fixed total order"""
+    k = max(p.t, key=lambda kk: (sum(e for _, e in kk), kk))
+    return k, p.t[k]
+
+
+def exact_div(n, d):
+    """Polynomial q with q*d == n, or None (multivariate long division, graded-lex order)."""
+    if not d.t:
+        raise ZeroDivisionError
+    q = Poly()
+    r = Poly(dict(n.t))
+    dk, dc = _lead(d)
+    ddict = dict(dk)
+    guard = 0
+    while r.t:
+        guard += 1
+        if guard > 10000:
+            return None
+        rk, rc = _lead(r)
+        rd = dict(rk)
+        if any(rd.get(s, 0) < e for s, e in ddict.items()):
+            return None
+        mon = {s: e for s, e in rd.items()}
+        for s, e in ddict.items():
+            mon[s] = mon.get(s, 0) - e
+        mk = tuple(sorted((s, e) for s, e in mon.items() if e))
+        term = Poly({mk: rc / dc})
+        q = q + term
+        r = r - term * d
+    return q
 
 
 def S(name):
